@@ -28,6 +28,7 @@ ANCHORS = [
     ("src/easynetwork/serializers/wrapper/base64.py", "Base64EncoderSerializer.serialize"),
     ("src/easynetwork/serializers/wrapper/base64.py", "Base64EncoderSerializer.deserialize"),
     ("src/easynetwork/protocol.py", "StreamProtocol.build_packet_from_chunks"),
+    ("src/easynetwork/protocol.py", "StreamProtocol.generate_chunks"),
     ("src/easynetwork/protocol.py", "BufferedStreamProtocol.build_packet_from_buffer"),
     ("src/easynetwork/lowlevel/_stream.py", "StreamDataConsumer.next"),
     ("src/easynetwork/lowlevel/_stream.py", "BufferedStreamDataConsumer.next"),
@@ -47,9 +48,11 @@ ASSUMPTIONS = ["theorem hypothesis valid_pkt: dec(enc p)=p, the separator first 
                "payload within the limit (buffer-filling path: payload + separator < limit)"]
 
 
-def gen_packet(impl, sep, rng, maxlen):
+def gen_packet(impl, sep, rng, maxlen, conv=False):
     name = impl[0]
     n = rng.choice([1, 1, 2, 3, maxlen])
+    if conv:
+        return "".join(rng.choice("0123456789" if rng.random() < 0.85 else "a ") for _ in range(n))
     if name in (b"autosep", b"b64"):
         alphabet = bytes(set(sep or b"")) + b"xyz\x00\xff"
         return bytes(rng.choice(alphabet) for _ in range(n))
@@ -77,18 +80,24 @@ def configs(thorough):
         for checksum in (0, 1):
             for sep in (b"\r\n", b"\n"):
                 out.append(dict(kinds=(0, 1), sep=sep, keep_end=False, impl=[b"b64", alphabet, checksum]))
+    for sep in (b"\n", b"\r\n"):
+        out.append(dict(kinds=(11, 12), sep=sep, keep_end=False, impl=[b"line", b"ascii"], conv=True))
     out.append(dict(kinds=(2, 3), size=3, impl=[b"fixed"]))
     out.append(dict(kinds=(2, 3), size=_struct.calcsize("!bH"), impl=[b"struct", b"!bH"]))
     out.append(dict(kinds=(0,), sep=b"\n", keep_end=True, impl=[b"jsonl"]))
     return out
 
 
+def base_kind(kind):
+    return kind - 11 if kind in (11, 12) else kind
+
+
 def build(cfgd, kind, pkts, limit, hint):
-    if kind in (0, 1):
-        cfg = [cfgd["sep"], limit, int(cfgd["keep_end"])] + ([hint] if kind == 1 else [])
+    if base_kind(kind) in (0, 1):
+        cfg = [cfgd["sep"], limit, int(cfgd["keep_end"])] + ([hint] if base_kind(kind) == 1 else [])
     else:
         cfg = [cfgd["size"]] + ([hint] if kind == 3 else [])
-    ser = sc.make_serializer(kind, cfg, cfgd["impl"])
+    ser = sc.make_serializer(base_kind(kind), cfg, cfgd["impl"])
     proto = StreamProtocol(ser)
     stream, sent = b"", []
     for p in pkts:
@@ -113,8 +122,10 @@ def validity(cfgd, kind, cfg, stream, sent, pkts):
     payload non-empty (an empty payload is not transmitted at all), within the band."""
     if kind in (2, 3):
         return True
+    if cfgd.get("conv") and not all(p and all("0" <= ch <= "9" for ch in p) for p in pkts):
+        return False
     sep, limit = cfg[0], cfg[1]
-    ser = sc.make_serializer(kind, cfg, cfgd["impl"])
+    ser = sc.make_serializer(base_kind(kind), cfg, cfgd["impl"])
     proto = StreamProtocol(ser)
     for p in pkts:
         data = b"".join(proto.generate_chunks(p))
@@ -175,7 +186,7 @@ def recv_cases(tier, rng, escalate):
                 limit = rng.choice([8, 16, 40, 120, 120])
                 hint = rng.choice([1, 2, 3, 5, 8, 64])
                 maxlen = cfgd.get("size", 3)
-                pkts = [gen_packet(cfgd["impl"], cfgd.get("sep"), rng, maxlen) for _ in range(npk)]
+                pkts = [gen_packet(cfgd["impl"], cfgd.get("sep"), rng, maxlen, cfgd.get("conv", False)) for _ in range(npk)]
                 b = build(cfgd, kind, pkts, limit, hint)
                 if b is None:
                     continue
@@ -186,7 +197,7 @@ def recv_cases(tier, rng, escalate):
                 if dec is None:
                     if not valid and len(stream) > 48:
                         continue    # overruns restart mid-frame: the decode table would have to cover every position
-                    dec = sc.decode_table(kind, cfg, cfgd["impl"], stream, "frames" if valid else "all")
+                    dec = sc.decode_table(base_kind(kind), cfg, cfgd["impl"], stream, "frames" if valid else "all")
                 chunkings = []
                 if len(stream) <= (10 if thorough else 8):
                     chunkings = list(sc.all_chunkings(stream))
@@ -271,7 +282,7 @@ def oracle(inp):
         return f"error reported on a stream of valid packets: {bad[0][:2]}"
     if got != list(sent):
         return f"received packets differ from sent: sent={sent!r} got={got!r}"
-    if kind in (0, 2):      # copying consumer: get_buffer() is the unconsumed remainder
+    if kind in (0, 2, 11):      # copying consumer: get_buffer() is the unconsumed remainder
         held = rounds[-1][2] if rounds else b""
         if held:
             return f"leftover after the last packet: {held!r}"
